@@ -21,7 +21,19 @@ def leaf_correspondence(ctx):
         keep += [c for c in cs if c[4] in (b'/' * 13, b'/.b')][:6] + [c for c in cs if c[1]][:6]
         dense = [c for c in cs if (c[2] or b'')[:1] == b'q']
         cs = keep + ctx.rng.sample(dense, min(len(dense), 400))
-    texts = [mod.render(c) for c in cs]
+    texts, kept = [], []
+    for c in cs:
+        try:
+            texts.append(mod.render(c))
+            kept.append(c)
+        except Exception as e:      # the case tool asserts the library's own consistency (CE length = bytes recorded, ...)
+            ctx.broken.append({'name': 'correspondence:RRPlace.place vs RockRidge.new', 'summary': 'RockRidge.new is inconsistent with itself: %s: %s'
+                                                                                                   % (type(e).__name__, str(e)[:200]),
+                               'case': {'version': c[0], 'first': c[1], 'name_len': len(c[2] or b''), 'mode': c[3],
+                                        'target': (c[4] or b'')[:60].decode('latin-1'), 'flags': list(c[5]), 'skip': c[6], 'curr_dr_len': c[7]}})
+            if len(ctx.broken) > 5:
+                break
+    cs = kept
     for c in cs:
         ctx.case(('rrplace', c[0], c[1], len(c[2] or b''), len(c[4] or b''), c[5], c[6], c[7]), True)
     bad, err = common.coq_bad_cases('rrplace', ['From PV.Model Require Import RRPlace.'], [], '(place_tuple * list Z * list Z * Z)', texts,
